@@ -13,6 +13,9 @@
 (*  Mode "proc":   every run is a fresh process; a history is one cold run followed by MaxRuns - 1 *)
 (*                 runs on the same input under any environment (cache kept or cleared).           *)
 (*  Mode "inproc": MaxRuns consecutive invocations inside one process, on any inputs.              *)
+(*  Mode "inslot": MaxRuns consecutive invocations inside one process, the FASTA input of every    *)
+(*                 run written to ONE path (replaced when the input changes, caches left alone):   *)
+(*                 what a process remembers about a path must not outlive the file's content.     *)
 (***************************************************************************************************)
 EXTENDS Naturals, Sequences, FiniteSets, TLC, Json
 CONSTANTS Inputs, Formats, Seeds, Dirs, Bufs, Seed0, Dir0, Buf0, MaxRuns, Mode
@@ -28,7 +31,9 @@ RunProc == /\ Mode = "proc" /\ Len(hist) < MaxRuns
 RunInProc == /\ Mode = "inproc" /\ Len(hist) < MaxRuns
              /\ \E i \in Inputs, f \in Formats, b \in Bufs :
                    hist' = Append(hist, Rec(i, f, Seed0, Dir0, "keep", b))
-Next == RunProc \/ RunInProc
+RunInSlot == /\ Mode = "inslot" /\ Len(hist) < MaxRuns
+             /\ \E i \in Inputs : hist' = Append(hist, Rec(i, "fa", Seed0, Dir0, "keep", Buf0))
+Next == RunProc \/ RunInProc \/ RunInSlot
 Spec == Init /\ [][Next]_hist
 \* the output of a run in the model: a function of the input (and, for whole files, of the input format)
 OutFiles(r) == <<r.inp, r.fmt>>
